@@ -286,7 +286,7 @@ Qed.
 
 Lemma span_fields_clean : forall s, clean_span s = true -> has10 (span_fields s) = false.
 Proof.
-  intros [name groups tg] H. unfold clean_span in H. simpl in H. apply andb_prop in H as [_ H].
+  intros [name groups tg ps] H. unfold clean_span in H. simpl in H. apply andb_prop in H as [_ H].
   unfold span_fields. simpl.
   assert (G : forall gs cur, forallb clean_fields gs = true -> has10 cur = false -> has10 (fold_left add_group gs cur) = false).
   { induction gs as [|g t IH]; intros cur Hg Hc; simpl in *; [assumption|].
@@ -383,7 +383,7 @@ Proof. vm_compute. auto. Qed.
 Example content_example_compact :
   let o := Opts false true false false true false false in
   let m := EMeta 2 (str "app") (str "event e") None None false in
-  let sc := [Span (str "outer") [[(str "a", str "1")]; [(str "b", str "2")]] (str "app"); Span (str "inner") [[]] (str "app")] in
+  let sc := [Span (str "outer") [[(str "a", str "1")]; [(str "b", str "2")]] (str "app") false; Span (str "inner") [[]] (str "app") false] in
   format_event Compact o (Thr [] []) (Em m sc (FOk (str "k") (str "7") FNil)) = OOk (str "! app:k=7 a=1 b=2" ++ [10]).
 Proof. vm_compute. auto. Qed.
 
@@ -599,7 +599,7 @@ Proof.
 Qed.
 
 Lemma pretty_root_fallback_refuted :
-  let cur := [Span (str "req") [[(str "id", str "7")]] (str "app")] in
+  let cur := [Span (str "req") [[(str "id", str "7")]] (str "app") false] in
   pretty_scope true true [] cur = cur
   /\ format_event_pretty (Opts false true false false false false false) (Thr [] [])
        (Em (EMeta 3 (str "app") (str "event e") None None false) (pretty_scope true true [] cur) (FOk (str "message") (str "root event") FNil))
@@ -612,7 +612,7 @@ Proof. vm_compute. auto. Qed.
 Example content_example_pretty :
   let o := Opts false true true true true true true in
   let m := EMeta 2 (str "app") (str "event e") (Some (str "src/main.rs")) (Some (str "42")) false in
-  let sc := [Span (str "outer") [[(str "a", str "1")]; [(str "b", str "2")]] (str "app::db"); Span (str "inner") [[]] (str "app")] in
+  let sc := [Span (str "outer") [[(str "a", str "1")]; [(str "b", str "2")]] (str "app::db") false; Span (str "inner") [[]] (str "app") false] in
   format_event_pretty o (Thr (str "wk00") (str "ThreadId(7)")) (Em m sc (FOk (str "message") (str "hello") (FOk (str "k") (str "7") FNil)))
   = OOk (str "   WARN app: hello, k: 7" ++ [10] ++ str "    at src/main.rs:42 on wk00 ThreadId(7)" ++ [10]
          ++ str "    in app::inner" ++ [10] ++ str "    in app::db::outer with a: 1, b: 2" ++ [10; 10]).
@@ -664,4 +664,37 @@ Example record_lost_update_without_lock :
   r_stored (rec_run false add_group gs [] [0; 1; 0; 1]%nat) = str "b=2"
   /\ r_done (rec_run false add_group gs [] [0; 1; 0; 1]%nat) = [0; 1]%nat
   /\ r_stored (rec_run true add_group gs [] [0; 1; 0; 1]%nat) = str "a=1 b=2".
+Proof. vm_compute. auto. Qed.
+
+(** ** F132: an event inside a span whose [record] call unwound *)
+Lemma guarded_unpoisoned : forall poisons fe m sc fl,
+  (poisons = true -> scope_poisoned sc = false) -> guarded poisons fe (Em m sc fl) = fe (Em m sc fl).
+Proof.
+  intros poisons fe m sc fl H. unfold guarded. destruct poisons; [rewrite (H eq_refl)|]; reflexivity.
+Qed.
+
+(** The record of an event IS written, with the specified content — when no [record] call unwound on a span of its
+    scope (or the locks do not poison). *)
+Theorem event_record_is_written : forall poisons f o th m sc fl fs,
+  (poisons = true -> scope_poisoned sc = false) -> ok_fields fl = Some fs ->
+  records true (gev_of (guarded poisons (format_event f o th)) (Em m sc fl))
+  = flat_map (records true) (gnested_of (guarded poisons (format_event f o th)) fl)
+    ++ [(m, concat (map (render_tok f) (tokens_spec f o th m sc fs)))].
+Proof.
+  intros poisons f o th m sc fl fs H K. cbn [gev_of].
+  rewrite (guarded_unpoisoned poisons (format_event f o th) m sc fl H), (content_tokens f o th m sc fl fs K).
+  reflexivity.
+Qed.
+
+(** ... and is NOT when one did: [span "sp" {a = 1}], [record("b", panicking Debug)] caught by the caller, then an
+    ordinary event inside the span: nothing is written for it (std locks); with locks that do not poison it is. *)
+Example F132_witness :
+  let sp := Span (str "sp") [[(str "a", str "1")]] (str "app") true in
+  let m := EMeta 3 (str "app") (str "event e") None None false in
+  let o := Opts false true false false true false false in
+  let em := Em m [sp] (FOk (str "message") (str "inside") FNil) in
+  ok_fields (FOk (str "message") (str "inside") FNil) = Some [(str "message", str "inside")]
+  /\ records true (gev_of (guarded true (format_event Full o (Thr [] [])) ) em) = []
+  /\ records true (gev_of (guarded false (format_event Full o (Thr [] []))) em)
+     = [(m, str " INFO sp{a=1}: app: inside" ++ [10])].
 Proof. vm_compute. auto. Qed.
